@@ -2,6 +2,7 @@ import Lean.Data.Json
 import Clover.Spec.Spec
 import Clover.Model.GoVal
 import Clover.Model.QueryBuilder
+import Clover.Model.Unmarshal
 /-! JSON line protocol: parsing of cases, canonical printing of results (driver only; not part of
     the model the theorems are about) -/
 namespace CV.Driver
@@ -139,6 +140,18 @@ partial def parseGoVal (j : Json) : Except String GoVal := do
       pure (({ name, tagName, omitempty := omitE, exported, embedded } : GoField), (← parseGoVal (← fj.getObjVal? "v"))))
     pure (.struct fs)
   | _ => pure .unsupported
+
+/-- a struct type descriptor: null = not a struct; otherwise an array of [goName, cloverName, jsonName, type] (names in hex) -/
+partial def parseRType (j : Json) : Except String RType := do
+  if j.isNull then return .leaf
+  let fs ← (← j.getArr?).toList.mapM (fun f => do
+    let a ← f.getArr?
+    let g ← fromHex (← a[0]!.getStr?)
+    let c ← fromHex (← a[1]!.getStr?)
+    let jn ← fromHex (← a[2]!.getStr?)
+    let t ← parseRType a[3]!
+    pure (g, c, jn, t))
+  return .struct fs
 
 def parseRange (j : Json) : Except String Range := do
   let start ← parseValue (← j.getObjVal? "start")
